@@ -30,17 +30,87 @@ def _atoms(v, out):
             _atoms(a, out)
 
 
+def _lit(c, pol):
+    """a condition as a set of (text, polarity) literals: `not x` is x with the other polarity, a true conjunction / false
+    disjunction is each of its members; anything else is one literal"""
+    if isinstance(c, E):
+        if c.op == 'not':
+            return _lit(c.args[0], not pol)
+        if (c.op == 'and' and pol) or (c.op == 'or' and not pol):
+            out = set()
+            for a in c.args:
+                out |= _lit(a, pol)
+            return out
+    at = set()
+    _atoms(c, at)
+    if not at:
+        return set()
+    return {(re.sub(r':(\{[^}]*\}|\d+)\.', ':*.', str(c)), pol)}
+
+
+def _coarse(c, pol):
+    if isinstance(c, E):
+        if c.op == 'not':
+            return _coarse(c.args[0], not pol)
+        if (c.op == 'and' and pol) or (c.op == 'or' and not pol):
+            out = set()
+            for a in c.args:
+                out |= _coarse(a, pol)
+            return out
+        if c.op in ('i', 'v'):
+            at = set()
+            _atoms(c, at)
+            return {(a, pol) for a in at}
+        if c.op == 'exists_n' and len(c.args) == 2:
+            return _coarse(c.args[1], pol) if pol else {(a, None) for a in _atomset(c)}
+    return {(a, None) for a in _atomset(c)}
+
+
+def _atomset(c):
+    at = set()
+    _atoms(c, at)
+    return at
+
+
+def _gated(v, under, out):
+    """{(atom, the conditions it is counted under)} for the atoms of an answer that sit inside a conditional term"""
+    if isinstance(v, E):
+        if v.op == 'ite' and len(v.args) == 3:
+            c, a, b = v.args
+            _gated(a, under | _lit(c, True), out)
+            _gated(b, under | _lit(c, False), out)
+            return
+        if v.op in ('i', 'v'):
+            at = set()
+            _atoms(v, at)
+            for a in at:
+                out.add((a, tuple(sorted(under))))
+            return
+        for a in v.args:
+            _gated(a, under, out)
+    elif isinstance(v, (list, tuple)):
+        for a in v:
+            _gated(a, under, out)
+
+
 def signature(d, mir=None):
     """(the combinations of inputs/lines an answer can be made of, can it refuse, what it reads) - deliberately blind to how
     the arithmetic is written: `max(0, a - b)` and `a - b if a > b else 0` have the same signature, `a + b` and "a, or else b"
     do not."""
     combos = set()
     refuses = False
+    gated = set()
+    special = set()
+    when = set()
     for p in d.paths:
         o = p.outcome
+        for ev in getattr(p, 'events', ()):
+            if ev[0] in ('firstonly', 'collapse', 'exhausted'):
+                special.add(ev[0])
         if o.kind == 'ret':
             at = set()
             _atoms(o.value, at)
+            _gated(o.value, set(), gated)
             if at:
                 # `a if a < b else b` is min(a, b): an order comparison that decides between amounts belongs to the answer
                 for (c, pol, _n, _r) in p.guards:
@@ -52,12 +122,18 @@ def signature(d, mir=None):
                 combos.add(tuple(sorted(at)))
         elif getattr(o, 'is_ni', False):
             refuses = True
+            # under which answers and over which amounts: bare yes/no reads keep their polarity, comparisons only say what they compare
+            lits = set()
+            for (c, pol, _n, _r) in p.guards:
+                lits |= _coarse(c, pol)
+            when |= {(t, 'None') for t, pol in lits}          # the union over the refusing paths, without polarity: the order of the tests does not matter
     mir = mir or {}
     def m_(a):
         return mir.get((d.year, a), a)
     combos = {tuple(sorted({_norm(m_(a)) for a in c})) for c in combos}
     reads = sorted({_norm(m_(r.atom)) for r in d.reads() if r.atom})
-    return (tuple(sorted(combos)), refuses, tuple(reads))
+    gates = tuple(sorted((_norm(m_(a)), tuple((_norm(t), pol) for t, pol in u)) for a, u in gated if u))
+    return (tuple(sorted(combos)), refuses, tuple(reads), gates, tuple(sorted(special)), tuple(sorted({(_norm(m_(t)), pol) for t, pol in when})))
 
 
 def mirrors(an):
